@@ -31,7 +31,7 @@ RULE = ("48 policy combinations x seeds {0, 7, 123456, 2^31-1, random} x scenari
         "interleaved other bandits sharing the policy tuple objects (PYTHONHASHSEED=1 or random); plus the idle-bandit digest "
         "invariant after every call on the other bandits. Non-trivial = scenario of a randomised policy, or one sharing a "
         "policy-tuple object with an interleaved bandit; distinct = (combo, seed, labels, scenario skeleton)")
-BUDGET = {"quick": {"cases": 144, "shards": 16}, "thorough": {"cases": 48 * 12, "shards": 16, "wall_s": 3600}}
+BUDGET = {"quick": {"cases": 192, "shards": 16}, "thorough": {"cases": 48 * 12, "shards": 16, "wall_s": 3600}}
 MIN = {"quick": {"evaluations": 200, "nontrivial": 40, "counters": {"fresh_interpreters": 100, "idle_digest_checks": 500, "concurrent_replays": 100}},
        "thorough": {"evaluations": 1500, "nontrivial": 250, "counters": {"fresh_interpreters": 1000, "idle_digest_checks": 3000, "concurrent_replays": 600}}}
 ASSUMPTIONS = ["OMP/BLAS threads pinned to 1 (k-means reductions are not run-to-run deterministic otherwise)",
@@ -134,7 +134,8 @@ def run_case(rs, ctx):
         ["partial_fit", "predict", "predict_expectations", "predict", "add_arm", "remove_arm", "warm_start", "fit"]) + \
         gen.gen_ops(rs, cfg, sh, 2, ["predict_expectations", "predict"])
     hostile = None
-    variant = int(rs.integers(3))
+    # string labels are the ones whose set / dict order depends on the interpreter's hash seed: more tie scenarios for them
+    variant = int(gen.pick(rs, [1, 1, 2, 0])) if labels == "str" else int(rs.integers(3))
     if p == "none" and l != "rnd" and len(cfg["arms"]) >= 3 and variant == 2:
         # hostile neighbours: the other bandits of the process are given the *same* training data and nearly the same arm
         # features (one coordinate off by one; values include -1 / -2, which CPython hashes alike): any process-wide memo or
